@@ -99,7 +99,7 @@ def balance_of(facts, body):
                         if body.in_loop(bi):
                             raise Unmodelled("write through get_mut pointer inside a loop")
                         rv = body.rvalue_expr(node["rv"], True)
-                        d = lin_sub(lin(rv), {tgt: 1})
+                        d = lin_sub(lin(rv), {norm(body.expand(tgt)): 1})
                         return s.with_user(put(ud, lin_add(md, d), ur, mr))
             return None
         if node["k"] == "call":
@@ -130,7 +130,7 @@ def balance_of(facts, body):
                             raise Unmodelled("closure writing used called in a loop")
                         return s.with_user(put(lin_add(ud, d2), md, ur, mr))
                 return None
-            if not args or not any(mentions(a, self_map) or mentions(a, self_used) for a in args):
+            if not args or not any(a == self_map or a == self_used for a in args):
                 return None
             if body.in_loop(bi):
                 raise Unmodelled("%s on key_costs inside a loop" % short(c))
